@@ -232,7 +232,8 @@ def finish(report, level='model_checking', extra=None):
     for kid, (e, n) in sorted(seen_known.items()):
         print('KNOWN-FINDING: property=%s %s (%d witnesses this run)'
               % (prop, e['summary'], n))
-    rdir = os.path.join(VERIF, 'replays', prop)
+    out_root = os.environ.get('VERIF_OUT', VERIF)
+    rdir = os.path.join(out_root, 'replays', prop)
     emitted = {}
     for v in fresh:
         key = json.dumps(jsonable(v.get('signature', {})), sort_keys=True)
@@ -284,8 +285,8 @@ def finish(report, level='model_checking', extra=None):
         'wall_s': round(wall, 2),
         'violations': len(fresh),
     }
-    os.makedirs(os.path.join(VERIF, 'evidence'), exist_ok=True)
-    with open(os.path.join(VERIF, 'evidence', prop + '.json'), 'w') as f:
+    os.makedirs(os.path.join(out_root, 'evidence'), exist_ok=True)
+    with open(os.path.join(out_root, 'evidence', prop + '.json'), 'w') as f:
         json.dump(evidence, f, indent=1, sort_keys=True)
     print('%s %s: states=%d transitions=%d executions=%d outcomes=%d '
           'violations=%d known=%d wall=%.1fs%s'
